@@ -16,6 +16,7 @@ import MTfitVerif.Model.JobPool
 import MTfitVerif.Model.RandomMT
 import MTfitVerif.Model.PostProc
 import MTfitVerif.Model.MultiEvent
+import MTfitVerif.Driver.PyxOps
 /- dispatch table of the executable model -/
 namespace MTfitVerif.Driver
 open MTfitVerif Proto
@@ -604,7 +605,20 @@ def opCombineMu : P String := do
   | some (m, sd) => pure (outFs [m, sd])
 
 
+/-! ### C20 — kernels translated from the Cython sources -/
+
+/-- `pyx <module.kernel> args…` → the kernel's results -/
+def opPyx : P String := do
+  let name ← tok
+  match pyxTable.lookup name with
+  | none => pure s!"bad-op:unknown-kernel:{name}"
+  | some (n, f) =>
+    let a ← flts n
+    done
+    pure (outFs (f a))
+
 def table : List (String × P String) := [
+  ("pyx", opPyx),
   ("joint", opJoint),
   ("scaleest", opScaleEst),
   ("combinemu", opCombineMu),
